@@ -61,6 +61,16 @@ fn cmd_api(args: &[String]) {
             );
         }
     }
+    let mut ledger_calls = 0u64;
+    for r in &res {
+        ledger_calls += 1;
+        if r.undropped_after_teardown > 0 || r.overdropped > 0 {
+            println!(
+                "FOUND C04 method={} populated={} called with a guard of another collector returned_normally={}: after every collection is dropped {} key/value instance(s) are still not destroyed (they were retired into the other collector) and {} were destroyed more than once",
+                r.name, r.populated, !r.panicked, r.undropped_after_teardown, r.overdropped
+            );
+        }
+    }
     let samples: Vec<_> = res
         .iter()
         .take(4)
@@ -68,7 +78,7 @@ fn cmd_api(args: &[String]) {
         .collect();
     println!(
         "JSON {}",
-        json!({"calls": res.len(), "distinct_methods": res.len() / 2, "table_rows": rows.len(),
+        json!({"calls": res.len(), "ledger_calls": ledger_calls, "distinct_methods": res.len() / 2, "table_rows": rows.len(),
                "missing_stubs": missing, "bad": bad, "samples": samples})
     );
 }
@@ -993,6 +1003,127 @@ fn cmd_directed(args: &[String]) {
                     found += 1;
                     let tag = if f.starts_with('C') { f[..3].to_string() } else { "C10".to_string() };
                     println!("FOUND {} directed template=transfer_vs_untreeify extra={} x={} || {} || {}", tag, extra, x, f.replace('\n', " "), program_text(&prog));
+                }
+            }
+        }
+    }
+    // template 9 (an update of a tree bin that has read the bin entry before a resize moves the bin):
+    // thread 1's compute_if_present / insert / remove on a key of a crowded bin makes k steps (it
+    // has loaded the bin, it may have taken its lock), thread 0's inserts complete the resize of the
+    // 64-bin table (the bin is split: both halves trees, or both lists), thread 1 resumes
+    if want("treemoved") {
+        for (ncoll, op) in [(16u32, 0u32), (10, 0), (16, 1), (10, 1), (16, 2), (12, 3), (16, 4)] {
+            // ncoll keys in bin 5 of a 64-bin table, alternating in the bit the resize splits on
+            let coll: Vec<u32> = (0..ncoll).map(|j| 5 + 64 * j).collect();
+            let others: Vec<u32> = (6..6 + 46 - ncoll).collect();
+            let mut prefill = coll.clone();
+            prefill.extend(others.iter());
+            let target = coll[(ncoll / 2) as usize];
+            let t1 = match op {
+                0 => COp::Compute(target, 1),
+                1 => COp::Compute(target, 0),
+                2 => COp::Insert(target, 77),
+                3 => COp::Remove(target),
+                _ => COp::Insert(5 + 64 * ncoll, 78),
+            };
+            for k in 1..=max_off.min(14) {
+                let prog = Program {
+                    hasher: types::H_IDENTITY,
+                    cap: 42,
+                    prefill: prefill.clone(),
+                    threads: vec![
+                        (52..58).map(|k| COp::Insert(k, 600 + k as i64)).collect(),
+                        vec![t1.clone(), COp::Get(target)],
+                        vec![COp::Get(target), COp::Iter],
+                    ],
+                    universe: 64 * 18,
+                    batch: 1,
+                    pin: false,
+                    linger: 0,
+                };
+                let script = vec![(1usize, Cond::Steps(k)), (0usize, Cond::Done), (1, Cond::Done), (0, Cond::Done), (2usize, Cond::Done)];
+                let opts = RunOpts { policy: Policy::Directed(script, 0), step_limit: 200_000, freeze: None };
+                println!("AT directed template=tree_moved colliding={} op={:?} k={} || {}", ncoll, t1, k, program_text(&prog));
+                let r = with_hasher!(prog.hasher, S, { run_program::<S>(&prog, opts) });
+                runs += 1;
+                let mut fails = r.failures.clone();
+                match r.verdict {
+                    Verdict::Deadlock => fails.push(format!("C11: deadlock: {}", r.statuses)),
+                    Verdict::StepLimit => fails.push("C11: step limit exceeded".into()),
+                    _ => {}
+                }
+                fails.extend(check_history(&prog, &r));
+                fails.extend(check_quiescent(&prog, &r));
+                fails.extend(check_resize_events(&r));
+                fails.extend(check_iterators(&prog, &r));
+                if samples.len() < 11 && k == 3 && op == 0 {
+                    samples.push(format!("update of a tree bin across its transfer: {} resize(s), lock waits {}", r.events.iter().filter(|(_, e)| matches!(e, flurry::verif::Event::TablePublished { .. })).count(), r.lock_waits));
+                }
+                for f in fails.iter().take(1) {
+                    found += 1;
+                    let tag = if f.starts_with('C') { f[..3].to_string() } else { "C01".to_string() };
+                    println!("FOUND {} directed template=tree_moved colliding={} op={:?} k={} || {} || {}", tag, ncoll, t1, k, f.replace('\n', " "), program_text(&prog));
+                }
+            }
+        }
+    }
+    // template 10 (a reader that pins while a resize is in the middle of moving a list bin): thread 0's
+    // insert starts the resize of a 16-bin table and makes k steps inside transfer (the crowded bin
+    // is the first one it moves; with a collector batch of 1 whatever it retires is handed over at
+    // once), thread 1 begins a lookup of a key of that bin and makes j steps (it holds a node of the
+    // old chain), thread 0 completes and drops its guard, thread 1 resumes
+    if want("retirewindow") {
+        // m: overwrites thread 0 makes first - each retires a value, so that the hand-over of its
+        // retirement batch (which seize delays until the batch has more entries than there are
+        // threads) falls on each of the retirements inside transfer for some m
+        for (keys, rk, m) in (0..8u32).flat_map(|m| [([15u32, 31, 47], 15u32, m), ([15, 47, 31], 47, m)]) {
+            let mut prefill: Vec<u32> = keys.to_vec();
+            prefill.extend(0..8u32);
+            for k in 0..=max_off.min(44) {
+                for j in [2u64, 3, 4] {
+                    let prog = Program {
+                        hasher: types::H_IDENTITY,
+                        cap: 0,
+                        prefill: prefill.clone(),
+                        threads: vec![
+                            (0..m).map(|x| COp::Insert(x, 700 + x as i64)).chain(std::iter::once(COp::Insert(9, 609))).collect(),
+                            vec![COp::GetKeyValue(rk), COp::Iter],
+                            vec![COp::Get(rk)],
+                        ],
+                        universe: 64,
+                        batch: 1,
+                        pin: false,
+                        linger: 0,
+                    };
+                    let script = vec![
+                        (0usize, Cond::CompletedOps(m as usize)),
+                        (0usize, Cond::EntersFn("transfer".into())),
+                        (0, Cond::Steps(k)),
+                        (1usize, Cond::Steps(j)),
+                        (0, Cond::Done),
+                        (1, Cond::Done),
+                        (2usize, Cond::Done),
+                    ];
+                    let opts = RunOpts { policy: Policy::Directed(script, 0), step_limit: 60_000, freeze: None };
+                    println!("AT directed template=retire_window key={} overwrites={} k={} j={} || {}", rk, m, k, j, program_text(&prog));
+                    let r = with_hasher!(prog.hasher, S, { run_program::<S>(&prog, opts) });
+                    runs += 1;
+                    let mut fails = r.failures.clone();
+                    match r.verdict {
+                        Verdict::Deadlock => fails.push(format!("C11: deadlock: {}", r.statuses)),
+                        Verdict::StepLimit => fails.push("C11: step limit exceeded".into()),
+                        _ => {}
+                    }
+                    fails.extend(check_history(&prog, &r));
+                    fails.extend(check_quiescent(&prog, &r));
+                    if samples.len() < 12 && k == 5 && j == 3 && m == 4 {
+                        samples.push(format!("reader pinning inside the transfer of a list bin: {} resize(s), {} reclaimed blocks", r.events.iter().filter(|(_, e)| matches!(e, flurry::verif::Event::TablePublished { .. })).count(), r.reclaimed));
+                    }
+                    for f in fails.iter().take(1) {
+                        found += 1;
+                        let tag = if f.starts_with('C') { f[..3].to_string() } else { "C03".to_string() };
+                        println!("FOUND {} directed template=retire_window key={} overwrites={} k={} j={} || {} || {}", tag, rk, m, k, j, f.replace('\n', " "), program_text(&prog));
+                    }
                 }
             }
         }
